@@ -34,3 +34,4 @@ def run(prog, rep):
     _rn.run_ref_members(prog, rep)
     _rs.run_namebuf(prog, rep)
     _rio4.run_roles(prog, rep)
+    _rs.run_bound_belief(prog, rep)
